@@ -252,6 +252,74 @@ theorem cbridge_is_extended_zero : cstmt_is_extended_zero := by
   rw [hiff]
   exact is_extended_zero_correct h
 
+/-! ## Part F: `Valid`, `Valid3` spelled out over the integers; `edPt` in affine form -/
+
+section ValidDefs
+variable [Fact (Nat.Prime Q)]
+
+theorem emod_ne_zero_iff (c : ℤ) : c % (Q : ℤ) ≠ 0 ↔ ((c : ℤ) : F) ≠ 0 :=
+  (xr_emod_zero_iff c).not
+
+/-- the integer residual `T·Z − X·Y` -/
+theorem tz_resid_iff (a b c e : ℤ) :
+    ((e * c) - (a * b)) % (Q : ℤ) = 0 ↔ ((e : ℤ) : F) * (c : F) = (a : F) * (b : F) := by
+  rw [xr_emod_zero_iff]
+  push_cast
+  constructor
+  · intro h; linear_combination h
+  · intro h; linear_combination h
+
+/-- the integer residual of the projective curve equation, with the module's unreduced `d` -/
+theorem curve_resid_iff (a b c : ℤ) :
+    (((((((-a) * a) + (b * b)) * c) * c) - (((c * c) * c) * c)) - ((((spake_d * a) * a) * b) * b)) % (Q : ℤ) = 0
+      ↔ (-((a : ℤ) : F) ^ 2 + (b : F) ^ 2) * (c : F) ^ 2 = (c : F) ^ 4 + dF * (a : F) ^ 2 * (b : F) ^ 2 := by
+  rw [xr_emod_zero_iff]
+  simp only [dF]
+  push_cast
+  constructor
+  · intro h; linear_combination h
+  · intro h; linear_combination h
+
+end ValidDefs
+
+theorem bridge_voc_valid3_def : stmt_voc_valid3_def := by
+  unfold stmt_voc_valid3_def
+  intro hQ hL a b c
+  unfold Valid3
+  constructor
+  · rintro ⟨h1, h2, h3, h4, h5, h6, h7, h8⟩
+    exact ⟨h1, h2, h3, h4, h5, h6, (emod_ne_zero_iff c).mpr h7, (curve_resid_iff a b c).mpr h8⟩
+  · rintro ⟨h1, h2, h3, h4, h5, h6, h7, h8⟩
+    exact ⟨h1, h2, h3, h4, h5, h6, (emod_ne_zero_iff c).mp h7, (curve_resid_iff a b c).mp h8⟩
+
+theorem bridge_voc_valid_def : stmt_voc_valid_def := by
+  unfold stmt_voc_valid_def
+  intro hQ hL a b c e
+  unfold Valid
+  constructor
+  · rintro ⟨h1, h2, h3, h4, h5, h6, h7, h8, h9, h10, h11⟩
+    exact ⟨h1, h2, h3, h4, h5, h6, h7, h8, (emod_ne_zero_iff c).mpr h9,
+      (tz_resid_iff a b c e).mpr h10, (curve_resid_iff a b c).mpr h11⟩
+  · rintro ⟨h1, h2, h3, h4, h5, h6, h7, h8, h9, h10, h11⟩
+    exact ⟨h1, h2, h3, h4, h5, h6, h7, h8, (emod_ne_zero_iff c).mp h9,
+      (tz_resid_iff a b c e).mp h10, (curve_resid_iff a b c).mp h11⟩
+
+theorem bridge_voc_pt_affine : stmt_voc_pt_affine := by
+  unfold stmt_voc_pt_affine
+  intro hQ hL a b c h
+  have hZ : ((c : ℤ) : F) ≠ 0 := h.2.2.2.2.2.2.1
+  -- the printed `c ^ (Q - 2).toNat % Q` is the generated mirror `spake_inv c`
+  show edPt a b c = edAff ((a * spake_inv c) % (Q : ℤ)) ((b * spake_inv c) % (Q : ℤ))
+  have hx : ((((a * spake_inv c) % (Q : ℤ)) : ℤ) : F) = (a : F) / (c : F) := by
+    push_cast [ZMod.intCast_mod]; rw [spake_inv_cast hZ, div_eq_mul_inv]
+  have hy : ((((b * spake_inv c) % (Q : ℤ)) : ℤ) : F) = (b : F) / (c : F) := by
+    push_cast [ZMod.intCast_mod]; rw [spake_inv_cast hZ, div_eq_mul_inv]
+  have hon : OnCurve (((((a * spake_inv c) % (Q : ℤ)) : ℤ) : F), ((((b * spake_inv c) % (Q : ℤ)) : ℤ) : F)) := by
+    rw [hx, hy]; exact pt_oncurve h
+  apply Curve.ext
+  rw [edPt_of_valid3 h, edAff_val hon, hx, hy]
+  rfl
+
 end Bridge
 
 /-! # Axiom audit -/
@@ -273,3 +341,6 @@ end Bridge
 #print axioms Bridge.cbridge_xform_affine_to_extended
 #print axioms Bridge.cbridge_xform_extended_to_affine
 #print axioms Bridge.cbridge_is_extended_zero
+#print axioms Bridge.bridge_voc_valid_def
+#print axioms Bridge.bridge_voc_valid3_def
+#print axioms Bridge.bridge_voc_pt_affine
